@@ -623,6 +623,20 @@ func genC09(r *hx.R, tier, scratch string) (*hx.Suite, error) {
 		}
 		addSpec09(s, scratch, &idx, "scalar", stringSpecIn09(str, groups), map[string]interface{}{"string": hx.JS(str), "position groups": groups})
 	}
+	// two strings in one Spec, each harmless to a writer that treats only the other one specially: a string the YAML encoder
+	// cannot write readably (several lines, leading white space) next to a character the Spec reader refuses or folds when it
+	// stands raw in a JSON text
+	for i, a := range []string{"  indented\nlines", "\nx", "\t- a\n\t- b\n", " \n"} {
+		for j, b := range []string{"del\u007f", "c1\u0080", "nel\u0085x", "\ufffe", "\uffff", "plain"} {
+			if tier != "thorough" && (i+j)%2 == 1 {
+				continue
+			}
+			sp := stringSpecIn09(a, 0)
+			sp.Annotations["example.com/other"] = b
+			sp.Devices[0].ContainerEdits.Env = append(sp.Devices[0].ContainerEdits.Env, "W="+b)
+			addSpec09(s, scratch, &idx, "two-strings", sp, map[string]interface{}{"string": hx.JS(a), "other string": hx.JS(b)})
+		}
+	}
 	// the literals in the files the library writes
 	nLit := 0
 	seenLit := map[string]bool{}
